@@ -67,13 +67,14 @@ static int walk_cb(const char *fp, const struct stat *, int type, struct FTW *ft
   if (removable) g_walk->push_back(rel);
   return 0;
 }
+static bool under(const std::string &q, const char *dir) { size_t L = strlen(dir); return q.compare(0, L, dir) == 0 && (q.size() == L || q[L] == '/'); }
 static int path_class(const Snapshot &s, const std::string &p) {
-  std::string q = p; if (s.kind == "x86+linux") { if (q.compare(0, 7, "fsroot/") == 0) q = q.substr(7); else return 0; }
+  std::string q = p; if (s.kind == "x86+linux") { if (under(q, "fsroot") && q.size() > 7) q = q.substr(7); else return 0; }
   if (s.kind == "x86") return 0;
-  if (q.compare(0, 23, "sys/devices/system/cpu") == 0 || q.compare(0, 24, "sys/devices/system/node") == 0 || q == "sys" || q == "sys/devices" || q == "sys/devices/system") return 0;
-  if (q.compare(0, 4, "proc") == 0 || q.compare(0, 13, "sys/fs/cgroup") == 0 || q.compare(0, 3, "dev") == 0 || q.compare(0, 13, "sys/kernel/mm") == 0 || q.compare(0, 3, "var") == 0) return 1;
-  if (q.compare(0, 7, "sys/bus") == 0 || q.compare(0, 9, "sys/class") == 0 || q.compare(0, 12, "sys/firmware") == 0 || q.compare(0, 19, "sys/devices/virtual") == 0) return 2;
-  return 3;
+  if (under(q, "sys/devices/system/cpu") || under(q, "sys/devices/system/node")) return 0;
+  if (under(q, "proc") || under(q, "sys/fs/cgroup") || under(q, "dev") || under(q, "sys/kernel/mm") || under(q, "var") || under(q, "cgroup")) return 1;
+  if (under(q, "sys/bus") || under(q, "sys/class") || under(q, "sys/firmware") || under(q, "sys/devices/virtual")) return 2;
+  return 3;   // the rest, including the top-level directories sys, sys/devices, sys/devices/system
 }
 
 static void restore_from_journal() {
@@ -202,7 +203,9 @@ static void run_snapshot_case(Case &c, const Snapshot &s, TopoSpec sp, const std
     // a failed load leaves a topology that can be configured and loaded again (C01)
     c.attempt("synthetic load after a failed snapshot load"); unsetenv("HWLOC_COMPONENTS"); unsetenv("HWLOC_FSROOT"); unsetenv("HWLOC_CPUID_PATH");
     CHECK(c, hwloc_topology_set_synthetic(t2, "pack:2 core:2 pu:2") == 0 && hwloc_topology_load(t2) == 0, "reload_after_failure", "synthetic load after a failed snapshot load failed"); require_wf(c, t2, "synthetic load after a failed snapshot load");
-    hwloc_topology_destroy(t1); hwloc_topology_destroy(t2); c.cls("load:failed-cleanly"); return;
+    hwloc_topology_destroy(t1); hwloc_topology_destroy(t2); c.cls("load:failed-cleanly"); c.cls(("failed:" + s.kind + (removed.empty() ? ":intact" : removed.size() == 1 ? ":1-removed" : ":n-removed")).c_str());
+    if (getenv("VERIF_C18_DEBUG")) { FILE *f = fopen(getenv("VERIF_C18_DEBUG"), "a"); if (f) { fprintf(f, "FAILED %s |", sp.text().c_str()); for (unsigned i : removed) fprintf(f, " %s", s.paths[i].c_str()); fprintf(f, "\n"); fclose(f); } }
+    return;
   }
   c.cls("load:ok");
   require_wf(c, t1, "first load"); std::string d1 = dump_topology(t1, what);
@@ -261,8 +264,10 @@ void h_run(Case &c) {
     if (s.paths.empty() || removed.size() >= want) break;
     // class by static prefix: cpu/node 6, proc/cgroup 3, bus/class/firmware 2, others 1
     int w = op.range(0, 11); int cl = w < 6 ? 0 : w < 9 ? 1 : w < 11 ? 2 : 3;
-    for (int k = 0; k < 4 && s.bycls[cl].empty(); k++) cl = (cl + 1) % 4;
-    removed.push_back(s.bycls[cl][op.raw() % s.bycls[cl].size()]);
+    // a class with a handful of entries (typically just the top-level directories, whose removal disables everything) is not
+    // worth 1/12 of the picks: draw from all paths instead
+    if (s.bycls[cl].size() < 12) removed.push_back(op.raw() % s.paths.size());
+    else removed.push_back(s.bycls[cl][op.raw() % s.bycls[cl].size()]);
   }
   std::sort(removed.begin(), removed.end()); removed.erase(std::unique(removed.begin(), removed.end()), removed.end());
   run_snapshot_case(c, s, sp, removed);
@@ -287,6 +292,10 @@ bool h_named(const std::string &name, Case &c) {
     // with the dump unusable, the topology must not contain anything the Linux snapshot alone does not justify: same PUs, same complete cpuset
     CHECK(c, hwloc_bitmap_isequal(hwloc_topology_get_complete_cpuset(a), hwloc_topology_get_complete_cpuset(b)), "no_native_fallback", "complete cpuset %s with the unusable dump, %s from the Linux snapshot alone: the native CPUID of this machine leaked in", bstr(hwloc_topology_get_complete_cpuset(a)).c_str(), bstr(hwloc_topology_get_complete_cpuset(b)).c_str());
     hwloc_topology_destroy(a); hwloc_topology_destroy(b); sp.components = "x86,linux,stop"; run_snapshot_case(c, s, sp, {}); return true;
+  }
+  if (name == "F-C18-c") {   // CPU 5 (the only CPU of NUMA node 2) has no topology directory: the node's Group became CPU-less in the middle of its siblings
+    const Snapshot &s = snap("linux/16amd64-8n2c-cpusets"); TopoSpec sp; sp.components = "linux,stop";
+    run_snapshot_case(c, s, sp, {idx(s, "sys/devices/system/cpu/cpu5/topology")}); return true;
   }
   if (name == "F-C18-e") {   // no node directory + cgroup that only allows CPUs of one Package: the default NUMA node ended below that Package with the Machine's complete_cpuset
     const Snapshot &s = snap("linux/32amd64-4s2n4c-cgroup2"); TopoSpec sp; sp.components = "linux,stop";
